@@ -154,6 +154,18 @@ def play(ctx, plan, base_dir, work, hist, ref_values, tag):
             if done:
                 break
             before, _ = plan.abstract(root)
+            if cmd[0] == 0:
+                # init issued again on the existing path (another plan): must fail and leave the tree as it is
+                icf_ = os.path.join(d, "s.icf")
+                tree0 = {os.path.relpath(os.path.join(dp, f), root): os.path.getsize(os.path.join(dp, f)) for dp, _, fs in os.walk(root) for f in fs}
+                rc, err = run_cmd(f"vcf2zarr.encode_init({icf_!r}, {root!r}, {cmd[1]}, variants_chunk_size={cmd[2]}, worker_processes=0)", root=root)
+                tree1 = {os.path.relpath(os.path.join(dp, f), root): os.path.getsize(os.path.join(dp, f)) for dp, _, fs in os.walk(root) for f in fs}
+                doc = dict(history=[[c, k] for c, k in hist], step=step_no)
+                if rc == 0:
+                    problems.append(("fail", doc, "encode init on an existing store was accepted (a command out of protocol order must fail and leave the data intact)"))
+                elif tree0 != tree1:
+                    problems.append(("fail", doc, "encode init on an existing store failed but changed it"))
+                continue
             src = f"vcf2zarr.encode_partition({root!r}, {cmd[1]})" if cmd[0] == 1 else f"vcf2zarr.encode_finalise({root!r})"
             rc, err = run_cmd(src, crash=crash, root=root)
             after, stray = plan.abstract(root)
@@ -286,6 +298,13 @@ def run(ctx):
                 k = crash(r.randrange(max(n_rerun, n_fin)), r.choice(tears))
             h.append((c, k))
         hists.append(h)
+
+    # ---- init issued again at several stages ----
+    for args in ((3, 4), (2, 4), (3, 2)):
+        hists.append([((0,) + args, None)] + allp + [((2,), None)])
+        hists.append([((1, 0), None), ((0,) + args, None), ((1, 1), None), ((1, 2), None), ((2,), None)])
+    hists.append(allp + [((0, 3, 4), None), ((2,), None)])
+    hists.append(allp + [((2,), None), ((0, 2, 4), None)])
 
     # ---- kills inside init: afterwards the partitions and finalise are attempted as they are ----
     pre_init = os.path.join(ctx.work, "c06pre")
